@@ -1,4 +1,4 @@
-import GopatchModel.Spec.FrameAll
+import GopatchModel.Spec.FrameFile
 namespace Gopatch.C05
 open Gopatch
 
@@ -64,6 +64,45 @@ example :
       (.ptr "ast.CallExpr" 1 [.iface "ast.Expr" (.str "f"), .slice "ast.Expr" [.str "a", .str "b"]])
     = .ptr "ast.CallExpr" 1 [.iface "ast.Expr" (.str "f"), .slice "ast.Expr" [.str "a", hole]] := by
   simp [maskP, maskFields, maskPs, blankP, blankElems, slotsOf]
+
+/-- **Frame of a whole change on a file.** One change applied to a file in which every node has an identity, the package
+clause and the import declarations left as they are: the new tree — after the replacement loop and after the nodes the
+replacer built were given identities — equals the old one once the slots of the matched sites are blanked. -/
+theorem change_rewrites_only_its_sites_in_the_file (c : Change) (f : FileM) (d : Data) (sites : List Site) (tree1 : V)
+    (imps : List (Option String × String)) (names : List String)
+    (hm : fileMatch c f = some (d, sites)) (hp : c.plus.pkg = "")
+    (hs : applySites c c.assoc sites f.tree = .ok tree1)
+    (hi : addImports c d c.plus.imports f.imports [] = .ok (imps, names))
+    (hsame : syncImports tree1 f.imports (cleanupImports d tree1 names (d.matched.getD []) imps) = tree1)
+    (hz : hasId 0 f.tree = false) :
+    ∃ f', applyChange c f = .ok f' sites.length ∧ maskP (slotsOf sites) f'.tree = maskP (slotsOf sites) f.tree := by
+  have hpk : (c.plus.pkg != "") = false := by simp [hp]
+  have happ : applyChange c f = .ok { pkg := f.pkg, imports := cleanupImports d tree1 names (d.matched.getD []) imps,
+                                       tree := (renumV tree1 f.nextId).1, nextId := (renumV tree1 f.nextId).2 } sites.length := by
+    simp only [applyChange, hm, hpk, Bool.false_eq_true, ↓reduceIte, hs, hi, hsame]
+  exact ⟨_, happ, sites_then_numbering c c.assoc sites f.tree tree1 f.nextId hz hs⟩
+
+/-- a sufficient condition for the hypothesis `hsame` above: the import list did not change and the file has no empty
+import declaration (`import ()`), which the synchronisation would drop -/
+theorem syncImports_same (tree : V) (l : List (Option String × String))
+    (hne : match tree with
+      | .ptr _ _ (_ :: _ :: _ :: .slice _ decls :: _) => ∀ x ∈ decls, (isImportGenDecl x && (specsOf x).isEmpty) = false
+      | _ => True) :
+    syncImports tree l l = tree := by
+  have hd : diffImports l l = [] := by
+    simp only [diffImports, List.filter_eq_nil_iff]
+    intro x hx
+    simp [List.contains_iff_mem, hx]
+  unfold syncImports
+  split
+  · rename_i t id doc pk nm e decls rest
+    simp only [hd, addSpecs, List.isEmpty_nil, ↓reduceIte, deleteSpecs, List.foldl_nil]
+    simp only [] at hne
+    congr
+    rw [List.filter_eq_self]
+    intro x hx
+    simp [hne x hx]
+  · rfl
 
 /-- the package clause changes only if the '+' side names a package -/
 theorem package_kept (c : Change) (f f' : FileM) (k : Nat) (h : applyChange c f = .ok f' k) (hp : c.plus.pkg = "") :
